@@ -434,6 +434,48 @@ func symIndexByte(fr *frame, args []value) value {
 	return termInt(r)
 }
 
+// symIndexAny / symContainsAny: a concrete ASCII character set against a
+// symbolic string (byte-wise, which is what IndexAny does for ASCII sets).
+func symIndexAny(fr *frame, args []value) value {
+	set, ok := args[1].(string)
+	if !ok {
+		return fallThrough
+	}
+	for i := 0; i < len(set); i++ {
+		if set[i] >= 0x80 {
+			return fallThrough
+		}
+	}
+	ts := fr.ex().ts
+	bs := strBytes(ts, args[0])
+	r := intTerm(ts, -1)
+	for i := len(bs) - 1; i >= 0; i-- {
+		r = ts.Ite(byteIn(ts, bs[i], set), intTerm(ts, i), r)
+	}
+	return termInt(r)
+}
+
+func symContainsAny(fr *frame, args []value) value {
+	set, ok := args[1].(string)
+	if !ok {
+		return fallThrough
+	}
+	for i := 0; i < len(set); i++ {
+		if set[i] >= 0x80 {
+			return fallThrough
+		}
+	}
+	ts := fr.ex().ts
+	var alts []*Term
+	for _, b := range strBytes(ts, args[0]) {
+		alts = append(alts, byteIn(ts, b, set))
+	}
+	if len(alts) == 0 {
+		return false
+	}
+	return fromBoolTerm(ts.Or(alts...))
+}
+
 func symLastIndexByte(fr *frame, args []value) value {
 	ts := fr.ex().ts
 	bs := strBytes(ts, args[0])
@@ -701,7 +743,9 @@ func init() {
 	reg("strings.SplitN", symSplitN)
 	reg("strings.Join", symJoin)
 	reg("strings.Count", symCount)
-	for _, n := range []string{"strings.IndexAny", "strings.IndexRune", "strings.ContainsAny", "strings.ContainsRune",
+	reg("strings.IndexAny", symIndexAny)
+	reg("strings.ContainsAny", symContainsAny)
+	for _, n := range []string{"strings.IndexRune", "strings.ContainsRune",
 		"strings.Title", "strings.Repeat", "strings.Fields", "strings.Cut", "strconv.Itoa", "strconv.Quote",
 		"strconv.FormatInt", "strconv.FormatBool", "net/url.QueryEscape", "net/url.PathEscape", "sort.Strings"} {
 		reg(n, nil)
